@@ -44,6 +44,7 @@ class Ctx:
         self.sets = {}                 # name -> set of small hashables (merged by union)
         self.evaluations = 0
         self.distinct = set()          # hashes of distinct non-trivial cases
+        self.distinct_bulk = 0         # distinct-by-construction cases of an enumeration (counted, not hashed)
         self.samples = []
         self.violations = []           # kept witnesses
         self.n_violations = 0
@@ -59,6 +60,11 @@ class Ctx:
             self.distinct.add(_h(blob))
         if sample is not None and len(self.samples) < MAX_SAMPLES:
             self.samples.append(jsonable(sample))
+
+    def bulk(self, evaluations, distinct_nontrivial):
+        """Account for an enumerated block whose points are distinct by construction."""
+        self.evaluations += evaluations
+        self.distinct_bulk += distinct_nontrivial
 
     def count(self, name, n=1):
         self.counters[name] += n
@@ -90,6 +96,7 @@ class Ctx:
             "sets": {k: sorted(map(str, v))[:5000] for k, v in self.sets.items()},
             "evaluations": self.evaluations,
             "distinct": sorted(self.distinct),
+            "distinct_bulk": self.distinct_bulk,
             "samples": self.samples,
             "violations": self.violations,
             "n_violations": self.n_violations,
